@@ -154,3 +154,16 @@ Proof.
   induction H as [|[o pos] it l1 l2 Hm _ IH]; constructor; auto.
   cbn [fst]. destruct it as [[i|l f]|]; destruct o; cbn in Hm; auto.
 Qed.
+
+(** the hypothesis [PolOk] is met by the library's unlimited policies *)
+Lemma PolOk_std : PolOk pol_std.
+Proof.
+  intros h c Hc. unfold pol_std. eexists. split; [reflexivity|].
+  destruct (N.ltb_spec (N.of_nat c) 8388608); lia.
+Qed.
+
+Lemma PolOk_double_until a : 1 <= a -> PolOk (pol_double_until a).
+Proof.
+  intros Ha h c Hc. unfold pol_double_until. eexists. split; [reflexivity|].
+  destruct (Nat.ltb_spec c a); lia.
+Qed.
